@@ -152,6 +152,50 @@ def run_book(case):
         truncation.truncate = orig
 
 
+def run_book_exact(case):
+    """svd_theta / eigh_rho on P1 diag(xs / 2^sc) P2 (permutation matrices): exact data in, exact data out.
+    Everything is reported as the exact ratio of the float: the singular values (eigenvalues) npc.svd (npc.eigh)
+    returns for the planted matrix, the mask chosen by truncate (pass-through wrapper) and the outputs."""
+    import tenpy.linalg.np_conserved as npc
+    from tenpy.linalg import truncation
+    xs = np.array(case['xs'], dtype=np.float64) / float(1 << case['sc'])
+    n = len(xs)
+    d = np.diag(xs)
+    if case.get('perm'):
+        p1 = np.eye(n)[case['perm'][0]]
+        p2 = p1.T if case['eigh'] else np.eye(n)[case['perm'][1]]
+        d = p1 @ d @ p2
+    a = npc.Array.from_ndarray_trivial(d, labels=['a', 'b'])
+    opts = {k: v for k, v in case['opts'].items() if v != 'absent'}
+    rec = {}
+    orig = truncation.truncate
+
+    def spy(S, options):
+        out = orig(S, options)
+        rec['mask'] = [bool(b) for b in out[0]]
+        return out
+    truncation.truncate = spy
+    try:
+        if case['eigh']:
+            W0, _ = npc.eigh(a)                       # the call eigh_rho makes first
+            W, V, err = truncation.eigh_rho(a, dict(opts))
+            return {'in': [_ratio(w) for w in W0], 'mask': rec['mask'], 'W': [_ratio(w) for w in W],
+                    'eps': _ratio(err.eps), 'ov': float(err.ov)}
+        _, S0, _ = npc.svd(a, full_matrices=False, compute_uv=True, inner_labels=['vR', 'vL'])
+        U, S, VH, err, renorm = truncation.svd_theta(a, dict(opts))
+        return {'in': [_ratio(s) for s in S0], 'mask': rec['mask'], 'S': [_ratio(s) for s in S],
+                'renorm': _ratio(renorm), 'eps': _ratio(err.eps), 'ov': float(err.ov)}
+    except Exception as e:
+        return {'error': type(e).__name__ + ': ' + str(e)[:100]}
+    finally:
+        truncation.truncate = orig
+
+
+def run_qr(case):
+    import c15_qr
+    return (c15_qr.run_qr_engine if case.get('engine') else c15_qr.run_qr_direct)(case)
+
+
 def run_err_exact(case):
     """TruncationError arithmetic, results as exact ratios (inputs are chosen so that floats are exact)."""
     from tenpy.linalg.truncation import TruncationError
@@ -169,7 +213,7 @@ def main():
     payload = json.load(open(sys.argv[1]))
     kind = payload['kind']
     f = {'truncate': run_truncate, 'err': run_err, 'decomp': run_decomp, 'book': run_book,
-         'err_exact': run_err_exact}[kind]
+         'err_exact': run_err_exact, 'book_exact': run_book_exact, 'qr': run_qr}[kind]
     res = []
     for c in payload['cases']:
         try:
